@@ -134,7 +134,7 @@ PROPS["C15"] = dict(
                      thorough=dict(split=[list(range(0, 14))], unwind=24, timeout=1800, bounds="every input of length 0..13"))),
         dict(id="C15.f", harness="C15_streams.cpp", entry="h_c15f_escape_ostream", ctors=False, big_alloc=288,
              desc="util::escape(begin,end,std::ostream&) == the streambuf form (C15.a); failbit <=> the sink failed; a failed stream is not written to",
-             tiers=T(quick=dict(split=[[0, 1, 2]], unwind="6*p0+3", timeout=900, bounds="every input of length 0..2, sink failing after any number of bytes, stream failed beforehand or not"))),
+             tiers=T(quick=dict(split=[[0, 1, 2], [0, 1]], unwind="6*p0+3", timeout=900, bounds="every input of length 0..2, sink failing after any number of bytes; stream failed beforehand or not (one solver instance each)"))),
         dict(id="C15.g", harness="C15_streams.cpp", entry="h_c15g_urlencode_forms", ctors=False, cut=[STRING_REALLOC],
              desc="util::urlencode(b,e,std::ostream&) (ostream_iterator / operator<<) and util::urlencode(std::string) == the streambuf form (C15.b)",
              tiers=T(quick=dict(split=[[0, 1, 2, 3]], unwind=20, timeout=600, bounds="every input of length 0..3"))),
@@ -393,7 +393,7 @@ PROPS["C05"] = dict(
     trusted_base=COMMON_TB + ["crypto::hmac and crypto::key are an opaque MAC model defined in the harness (append records, readout returns an arbitrary digest of D bytes); MAC unforgeability is an assumption",
                               "native replay of these obligations runs the gcc build of the translated real code plus the MAC model (the native library build has the real HMAC)"],
     assumptions=["digest size D = 4 (quick) / 16 (thorough): hmac_cipher is generic in it"],
-    outside="AES-CBC and HMAC themselves (opaque models), aes_factory key derivation, session_cookies::load/save (base64, expiry), the digests themselves (C16), confidentiality properties, cross-key transplant",
+    outside="AES-CBC and HMAC themselves (opaque models), aes_factory key derivation, session_pool configuration, the digests themselves (C16), confidentiality properties, cross-key transplant",
     obligations=[
         dict(id="C05.a", harness="C05_hmac_cipher.cpp", entry="h_c05a_decrypt", ctors=False, cut=[STRING_REALLOC], nvec=0, replay="generated",
              desc="hmac_cipher::decrypt: true <=> length >= D and ALL D tag bytes equal the MAC computed over exactly the preceding bytes; plain == those bytes; rejected input leaves the output untouched",
@@ -408,6 +408,12 @@ PROPS["C05"] = dict(
         dict(id="C05.b2", harness="C05_aes_cipher.cpp", entry="h_c05b_aes_roundtrip", ctors=False, cut=[STRING_REALLOC], nvec=0, replay="generated",
              desc="aes_cipher::encrypt emits E(IV block | length | payload | padding) || MAC(cipher text) and decrypt(encrypt(p)) == p for every payload length (decrypt model = inverse of the recorded encryption, MAC functional)",
              tiers=T(quick=dict(split=[[0, 1, 3, 4, 5, 8]], unwind=30, timeout=900, bounds="model digest 4 bytes, block 4 bytes; every payload of length 0,1,3,4,5,8 (with and without padding)"))),
+        dict(id="C05.c", harness="C05_session_cookies.cpp", entry="h_c05c_cookie_load", ctors=False, cut=[STRING_REALLOC], nvec=0, replay="generated",
+             desc="session_cookies::load (real code + real b64url::decode; encryptor = opaque model): true <=> 'C' + well-framed base64url, accepted by the cipher, >= 8 bytes, deadline >= now; returns exactly the deadline and the bytes after it; every refused non-empty cookie is cleared, outputs untouched",
+             tiers=T(quick=dict(split=[[0, 1, 2, 5, 6], [0, 7, 8, 10]], unwind=16, timeout=900, bounds="cookie text of length 0,1,2,5,6 (arbitrary bytes) x decrypted text of length 0,7,8,10 (arbitrary bytes), arbitrary clock and cipher verdict"))),
+        dict(id="C05.c2", harness="C05_session_cookies.cpp", entry="h_c05c_cookie_save", ctors=False, cut=[STRING_REALLOC], nvec=0, replay="generated",
+             desc="session_cookies::save: refuses on_server data; otherwise the cipher gets deadline || data once and the cookie is 'C' + base64url(cipher text)",
+             tiers=T(quick=dict(split=[[0, 1, 3]], unwind=16, unwindset={"X_strlen.0": 100, "verif_memcpy.0": 100}, timeout=900, bounds="data of length 0,1,3; arbitrary deadline; 6-byte model cipher text"))),
         dict(id="C05.e", harness="C15_codecs.cpp", entry="h_c15d_b64_decode_safety", ctors=False,
              desc="cookie framing: b64url::decode (string form used by session_cookies::load) rejects a length = 1 mod 4 by returning false (no exception), and never leaves its buffers for other lengths",
              tiers=T(quick=dict(split=[[0, 1, 2, 4, 5, 9]], unwind=16, timeout=600, bounds="every byte string of length 0,1,2,4,5,9"))),
